@@ -260,3 +260,11 @@ b("upgrad-loop-store-at-zero", ["C10"], "@seed", _os.path.join(_PD, "upgrad-loop
 b("krum-pdist-upper-half-only", ["C10"], "@seed", _os.path.join(_PD, "krum-pdist-upper-half-only.diff"), "", "only the upper triangle receives the distances")
 # a sum accumulated in a loop that can be left early is a sum over a prefix of the rows (see seeded/C10-r9C for `length = length + ...`): the `+=` spelling
 b("config-length-break-augmented", ["C10"], "@seed", _os.path.join(_PD, "config-length-break-augmented.diff"), "", "rows after the first zero gradient no longer contribute")
+# round 12: a decorator that runs the input checks before forward (see seeded_keep/C03-r12K1) — the twin that forgets the finiteness check
+b("decorator-checks-matrix-only", ["C11"], "@seed", _os.path.join(_PD, "decorator-checks-matrix-only.diff"), "", "@_with_input_checks(\"_check_is_matrix\"): non-finite input is no longer rejected")
+# immutability bound by a setattr loop after the class statement (see seeded_keep/C14-r12K1) — the twin whose tuple forgets `pop`
+b("immutable-setattr-missing-pop", ["C14"], "@seed", _os.path.join(_PD, "immutable-setattr-missing-pop.diff"), "", "pop() mutates the dictionary")
+# overlap test by inclusion-exclusion (see seeded_keep/C12-r12K1) — the twin with the comparison turned round (never true)
+b("overlap-inclusion-exclusion-wrong-sign", ["C02", "C12"], "@seed", _os.path.join(_PD, "overlap-inclusion-exclusion-wrong-sign.diff"), "", "len(A | B) > len(A) + len(B) never holds: overlapping collections are accepted")
+# depth-first walker with a separate visited set (see seeded_keep/C07-r12K1) — the twin whose roots are not filtered by the excluded nodes
+b("walker-dfs-roots-not-filtered", ["C12"], "@seed", _os.path.join(_PD, "walker-dfs-roots-not-filtered.diff"), "", "excluded roots are expanded")
